@@ -41,6 +41,7 @@ P = {'id': 'C01',
               'hm_of_permutes',
               'par_roundtrip',
               'par_is_single_lane',
+              'adaptive_huffman_roundtrip',
               'rans_step_inverse',
               'rans_no_overflow',
               'rans_roundtrip',
